@@ -4,7 +4,7 @@ import signal, time, traceback, logging, codecs, resource
 from .common import cssutils
 
 TOK = {"ident": ["zz", "\\61 b", "-x"], "IDENT-and": ["and"], "ident-important": ["important"], "ident-inherit": ["inherit"], "func": ["f("],
-       "url(": ["url("], "var(": ["var("], "calc(": ["calc("], "rgb(": ["rgb("], "not(": [":not("], "nth-child(": [":nth-child("],
+       "url(": ["url("], "var(": ["var("], "calc(": ["calc("], "rgb(": ["rgb("], "hsl(": ["hsl(", "hsla("], "not(": [":not("], "nth-child(": [":nth-child("],
        "expression(": ["expression("], "@charset-sp": ["@charset "], "@charset": ["@charset"], "@import": ["@import"], "@media": ["@media"],
        "@page": ["@page"], "@font-face": ["@font-face"], "@namespace": ["@namespace"], "@variables": ["@variables"], "@top-left": ["@top-left"],
        "@x": ["@x"], "hash": ["#abc", "#1"], "string": ['"s"', "'t'"], "uri": ["url(u)"], "number": ["1", "-.5"], "percentage": ["50%"],
@@ -17,10 +17,10 @@ CTX = {"sheet": "", "after-charset": '@charset "utf-8"', "import-prelude": "@imp
        "media-rules": "@media print { ", "page-prelude": "@page ", "page-block": "@page { ", "fontface-block": "@font-face { ",
        "variables-block": "@variables { ", "unknown-prelude": "@x ", "unknown-block": "@x y { ", "selector": "a ", "attrib": "a[", "pseudo-arg": "a:nth-child(",
        "not-arg": "a:not(", "decl-block": "a { ", "decl-name": "a { x", "decl-value": "a { x: ", "decl-prio": "a { x: 1 !", "func-arg": "a { x: f(",
-       "rgb-arg": "a { x: rgb(", "var-arg": "a { x: var(", "calc-arg": "a { x: calc(", "url-open": "a { x: url(", "paren": "a { x: (", "bracket": "a { x: [",
+       "rgb-arg": "a { x: rgb(", "hsl-arg": "a { x: hsl(", "var-arg": "a { x: var(", "var-fallback": "a { x: var(y,", "calc-arg": "a { x: calc(", "url-open": "a { x: url(", "paren": "a { x: (", "bracket": "a { x: [",
        "style-attr": "", "margin-block": "@page { @top-left { "}
 NEST = {"{": ("{", "}"), "(": ("(", ")"), "[": ("[", "]"), "func": ("f(", ")"), "calc(": ("calc(", ")"), "not(": (":not(", ")"),
-        "@media": ("@media print {", "}"), "@x-block": ("@x {", "}"), "url(": ("url(", ")"), "rgb(": ("rgb(", ")"), "var(": ("var(", ")"),
+        "@media": ("@media print {", "}"), "@x-block": ("@x {", "}"), "url(": ("url(", ")"), "rgb(": ("rgb(", ")"), "hsl(": ("hsl(", ")"), "var(": ("var(", ")"), "var-fallback": ("var(v,", ")"), "func-comma": ("f(1,", ")"),
         "paren-in-selector": ("a(", ")"), "attr-in-not": (":not([", "])"), "string-in-func": ('f("', '")'), "comment": ("/*", "*/")}
 TEXTS = {"plain": 'a { left: 0 } @media print { b { top: 1px } }', "malformed": 'a { left: } } @import "late"; b {{ x ]',
          "truncated-charset": "@charset ", "bom": "﻿a { left: 0 }", "charset-rule": '@charset "iso-8859-1";\na { content: "é" }', "empty": ""}
